@@ -607,10 +607,14 @@ def r_segflag(ctx):
 
 @rule('C13', 'R-C13-7', 'prerequisite (normalised edit distance)',
       'edit::distance divides the DP answer by max(|a|, |b|) counted in the same Characters as the DP, clamped to >= 1 (R-C12-1 '
-      're-evaluated): mean_normalized_edit_distance is the mean of exactly these values')
+      're-evaluated): mean_normalized_edit_distance is the mean of exactly these values; the DP recurrence and its whitespace restriction '
+      '(R-C12-2 re-evaluated), which _group_words relies on')
 def r7(ctx):
     from rules import c12
     c12.r1(ctx)
+    # ... and the recurrence itself, with its whitespace restriction (R-C12-2 re-evaluated): _group_words reads splits and merges of words off
+    # edit::operations(.., spaces_insert_delete_only = true) and panics on its closing assertion when a space was Replaced instead
+    c12.r2(ctx)
 
 
 @rule('C13', 'R-C13-8', 'T15 TYPE (character positions are not byte offsets)',
